@@ -345,6 +345,9 @@ func (tm TreeMarshal) MakeTree(ro *Roster) (*Tree, error) {
 	if !ro.ID.Equal(tm.RosterID) {
 		return nil, xerrors.New("Not correct Roster-Id")
 	}
+	if len(tm.Children) == 0 || tm.Children[0] == nil {
+		return nil, xerrors.New("tree description without nodes")
+	}
 	tree := &Tree{
 		ID:     tm.TreeID,
 		Roster: ro,
